@@ -2,11 +2,11 @@
    (Model/Factorized.v), for EVERY carrier F whose operations form a commutative ring, every order,
    every mode size and every rank. *)
 From Coq Require Import List Arith ZArith Ring Lia Reals RealField.
-From TLV Require Import Base.Shape Base.PyList Base.Tensor Base.BigSum Base.Ops Model.Base Model.Factorized
+From TLV Require Import Base.Shape Base.PyList Base.Tensor Base.BigSum Base.Ops Model.Base Model.Factorized Model.FactorizedSrc
   Proofs.FactorizedProofs Proofs.FactorizedProofs2 Proofs.FactorizedProofs3 Proofs.FactorizedProofs4
   Proofs.FactorizedProofs5 Proofs.FactorizedProofs6 Proofs.FactorizedProofs7 Proofs.FactorizedProofs8
   Proofs.FactorizedProofs9 Proofs.FactorizedProofs10 Proofs.FactorizedProofs11 Proofs.FactorizedProofs12 Proofs.FactorizedProofs13 Proofs.FactorizedProofs14
-  Proofs.BaseProofs6 Proofs.FactorizedProofs15 Proofs.FactorizedProofs16 Proofs.FactorizedProofs17 Proofs.FactorizedProofs18 Proofs.FactorizedProofs19 Proofs.FactorizedProofs20 Proofs.FactorizedProofs21.
+  Proofs.BaseProofs6 Proofs.FactorizedProofs15 Proofs.FactorizedProofs16 Proofs.FactorizedProofs17 Proofs.FactorizedProofs18 Proofs.FactorizedProofs19 Proofs.FactorizedProofs20 Proofs.FactorizedProofs21 Proofs.FactorizedProofs22.
 Import ListNotations.
 
 Definition is_ring {F : Type} (Op : fops F) : Prop :=
@@ -766,3 +766,77 @@ Example C03_before_b8d05d5_cp_unfolded_negative_mode :
 Proof. exact before_b8d05d5_cp_unfolded_negative_mode. Qed.
 Example C03_cp_unfolded_neg_order1_hyps : validate_cp (Some wW) [wA] = Ok ([3], 2).
 Proof. reflexivity. Qed.
+
+(* ------------------------------------------------------------------ source tie of the chain validators *)
+(* tt_prog / tr_prog / ttm_prog (Model/FactorizedSrc.v) are _validate_tt_tensor / _validate_tr_tensor / _validate_tt_matrix AS WRITTEN in
+   the Python source: pre-check on the number of cores, arity of the tuple unpacking of tl.shape(factor), the `if <cond>: raise` checks in
+   source order, the appends, the returned tuple.  On every run they are regenerated from the current source by an ast translation and
+   checked to be these terms (corr:C03-src).  Their interpretation on the shapes of the cores IS the model's validator, for every list
+   of cores of every carrier -- so the iff characterisations above speak about the source's chain of checks *)
+Theorem C03_tt_prog_link : forall (F : Type) (cs : list (tensor F)), run_chain tt_prog (map (@shape F) cs) = validate_tt cs.
+Proof. exact tt_prog_link. Qed.
+Print Assumptions C03_tt_prog_link.
+Theorem C03_tr_prog_link : forall (F : Type) (cs : list (tensor F)), run_chain tr_prog (map (@shape F) cs) = validate_tr cs.
+Proof. exact tr_prog_link. Qed.
+Print Assumptions C03_tr_prog_link.
+Theorem C03_ttm_prog_link : forall (F : Type) (cs : list (tensor F)), run_chain ttm_prog (map (@shape F) cs) = validate_ttm cs.
+Proof. exact ttm_prog_link. Qed.
+Print Assumptions C03_ttm_prog_link.
+Theorem C03_tucker_prog_link : forall (F : Type) (core : tensor F) (fs : list (tensor F)),
+  run_tk tucker_prog (shape core) (map (@shape F) fs) = validate_tucker core fs.
+Proof. exact tucker_prog_link. Qed.
+Print Assumptions C03_tucker_prog_link.
+Theorem C03_cp_prog_link : forall (F : Type) (w : option (tensor F)) (fs : list (tensor F)),
+  run_cp cp_prog (option_map (@shape F) w) (map (@shape F) fs) = validate_cp w fs.
+Proof. exact cp_prog_link. Qed.
+Print Assumptions C03_cp_prog_link.
+Example C03_run_tk_cp_example :
+  run_tk tucker_prog [2; 2] [[3; 2]; [1; 2]] = Ok ([3; 1], [2; 2]) /\ run_tk tucker_prog [2; 2] [[3; 2]; [1; 3]] = Err /\
+  run_cp cp_prog (Some [2]) [[3; 2]; [4; 2]] = Ok ([3; 4], 2) /\ run_cp cp_prog None [[3]; [4]] = Ok ([3; 4], 1) /\ run_cp cp_prog (Some [2; 1]) [[3; 2]] = Err.
+Proof. repeat split; reflexivity. Qed.
+(* the interpreter does something: a two-core train, and the same cores as a ring (the ring does not close) *)
+Example C03_run_chain_example :
+  run_chain tt_prog [[1; 2; 2]; [2; 3; 1]] = Ok ([2; 3], [1; 2; 1]) /\ run_chain tr_prog [[1; 2; 2]; [2; 3; 1]] = Ok ([2; 3], [1; 2; 1]) /\
+  run_chain tr_prog [[1; 2; 2]; [2; 3; 3]] = Err /\ run_chain ttm_prog [[1; 2; 1; 2]; [2; 1; 3; 1]] = Ok ([2; 1; 1; 3], [1; 2; 1]) /\
+  run_chain tt_prog [] = Err /\ run_chain tt_prog [[1; 2]] = Err.
+Proof. repeat split; reflexivity. Qed.
+
+(* ------------------------------------------------------------------ negative unfolding modes of the other five families *)
+(* to_unfolded(mode = -k) is tl.unfold(<dense reconstruction>, -k) (unfolded_neg: C01's signed unfold): for whatever the validator
+   accepts, mode -k with 1 <= k <= order IS mode order - k (so the C03_*_views theorems apply to it) and a mode below -order is rejected *)
+Theorem C03_neg_modes_of_unfold : forall (F : Type) (Op : fops F) (rec : res (tensor F)) (unf : nat -> res (tensor F)) (N : nat),
+  neg_modes_of F Op rec unf N <->
+  (forall k, 0 < k <= N -> unfolded_neg Op rec k = unf (N - k)) /\ (forall k, N < k -> unfolded_neg Op rec k = Err).
+Proof. exact neg_modes_of_unfold. Qed.
+Print Assumptions C03_neg_modes_of_unfold.
+Theorem C03_tt_neg_modes : forall (F : Type) (Op : fops F), is_ring Op -> forall (cs : list (tensor F)) (shp rk : list nat),
+  validate_tt cs = Ok (shp, rk) -> Forall (fun x => 0 < x) rk -> 0 < prod shp ->
+  neg_modes_of F Op (tt_to_tensor Op cs) (tt_to_unfolded Op cs) (length shp).
+Proof. exact tt_neg_modes. Qed.
+Print Assumptions C03_tt_neg_modes.
+Theorem C03_tr_neg_modes : forall (F : Type) (Op : fops F), is_ring Op -> forall (cs : list (tensor F)) (shp rk : list nat),
+  validate_tr cs = Ok (shp, rk) -> Forall (fun x => 0 < x) rk -> 0 < prod shp ->
+  neg_modes_of F Op (tr_to_tensor Op cs) (tr_to_unfolded Op cs) (length shp).
+Proof. exact tr_neg_modes. Qed.
+Print Assumptions C03_tr_neg_modes.
+Theorem C03_tucker_neg_modes : forall (F : Type) (Op : fops F), is_ring Op -> forall (core : tensor F) (fs : list (tensor F)) (shp rk : list nat),
+  validate_tucker core fs = Ok (shp, rk) -> wf core -> 0 < prod rk -> 0 < prod shp ->
+  neg_modes_of F Op (tucker_to_tensor Op core fs None false) (fun m => tucker_to_unfolded Op core fs m None false) (length shp).
+Proof. exact tucker_neg_modes. Qed.
+Print Assumptions C03_tucker_neg_modes.
+Theorem C03_ttm_neg_modes : forall (F : Type) (Op : fops F), is_ring Op -> forall (cs : list (tensor F)) (shp rk : list nat),
+  validate_ttm cs = Ok (shp, rk) -> Forall (fun x => 0 < x) rk ->
+  neg_modes_of F Op (ttm_to_tensor Op cs) (ttm_to_unfolded Op cs) (length shp).
+Proof. exact ttm_neg_modes. Qed.
+Print Assumptions C03_ttm_neg_modes.
+Theorem C03_parafac2_neg_modes : forall (F : Type) (Op : fops F), is_ring Op -> (forall x y : F, feqb Op x y = true <-> x = y) ->
+  forall (w : option (tensor F)) (A B C : tensor F) (ps : list (tensor F)) (shps : list (list nat)) (R I : nat),
+  validate_parafac2 Op w [A; B; C] ps = Ok (shps, R) -> shape A = [I; R] -> shape B = [R; R] -> w_ok F w R ->
+  neg_modes_of F Op (parafac2_to_tensor Op w [A; B; C] ps) (parafac2_to_unfolded Op w [A; B; C] ps) 3.
+Proof. exact parafac2_neg_modes. Qed.
+Print Assumptions C03_parafac2_neg_modes.
+Example C03_tt_neg_modes_example :
+  let cs := [mk [1; 2; 2] [1; 2; 3; 4]%Z; mk [2; 3; 1] [1; 0; 2; -1; 1; 1]%Z] in
+  unfolded_neg Zops (tt_to_tensor Zops cs) 1 = tt_to_unfolded Zops cs 1 /\ unfolded_neg Zops (tt_to_tensor Zops cs) 2 = tt_to_unfolded Zops cs 0 /\
+  unfolded_neg Zops (tt_to_tensor Zops cs) 3 = Err.
+Proof. cbv zeta. repeat split; vm_compute; reflexivity. Qed.
